@@ -20,7 +20,8 @@ def cases(tier):
     r = rng("img-suite")
     quick = tier != "thorough"
     out = list(G.fixtures())
-    out += G.extremes(r)
+    extreme_cases = G.extremes(r)
+    out += extreme_cases
     n_valid = {"hrs": 12, "pix": 8, "max": 16, "mge": 3, "rat": 2, "cm3": 3, "vef": 4}
     n_pref = 10 if quick else 48
     n_corr = 12 if quick else 64
@@ -32,6 +33,10 @@ def cases(tier):
             valid.append(G.build_rat(r, low_nibble_max=16))
         out += valid
         base = valid[: (2 if quick else 6)]
+        # not left to the draw: the structural extremes of the compressed formats (raw and coded CM3 lines, maximal runs, every
+        # VEF record shape) are damaged too
+        if fmt in ("cm3", "mge", "rat", "vef"):
+            base = base + [c for c in extreme_cases if c["fmt"] == fmt and len(c["data"]) <= 70000][: (3 if quick else 8)]
         for c in base:
             out += G.prefixes(c, r, n_pref)
             out += G.corruptions(c, r, n_corr)
@@ -58,6 +63,13 @@ def run(tier):
     model = run_driver(reqs)
     with mp.Pool(16) as pool:
         impl = pool.map(_impl, reqs, chunksize=4)
+    # state carried from one call to the next (a module-level buffer, a cached table): the valid pictures once more, one after
+    # the other in THIS process, in list order and in reverse - every answer must be the one the fresh pool worker gave
+    seq = [k for k, c in enumerate(cs) if c["kind"] in ("valid", "fixture") and len(c.get("data", b"")) <= 70000]
+    for order in (seq, seq[::-1]):
+        for k in order:
+            if impl[k].startswith("ok ") and _impl(reqs[k]) != impl[k]:
+                impl[k] = "fail HistoryDependent"
     dis = []
     for c, m, i in zip(cs, model, impl):
         if m != i:
